@@ -5,6 +5,7 @@
 mod addr;
 mod cpu;
 mod cpufam;
+mod gdt;
 mod gen;
 mod out;
 mod physmem;
@@ -74,6 +75,8 @@ fn main() {
             "C20" => addr::run_c20_pure(&mut o, args.seed, args.n),
             _ => usage(),
         },
+        "gdt" => gdt::run_gdt(&mut o, args.seed, args.n),
+        "desc" => gdt::run_desc(&mut o, args.seed, args.n),
         "pte" => pte::run_pte(&mut o, args.seed, args.n),
         "regs" => regs::run_regs(&mut o, args.seed, args.n),
         "ports" => cpufam::run_ports(&mut o, args.seed, args.n),
